@@ -383,6 +383,83 @@ def run(prog, rep, tier):
     if len(wc) != 1:
         raise CheckerError("pathbuf_to_filetype wrapper shape")
 
+    # ------------------------------------------------------------ R16.8 sibling agreement of the "no type word" fallbacks
+    # Every place that gives up on a name answers through the same flag: read it as text when
+    # `unparseable_are_text`, otherwise report it unparsable.  All these sites must map the flag the
+    # same way (cross-check of siblings; an inverted copy makes explicitly named files "(not supported)").
+    R168 = rep.rule("R16.8", "all fallbacks map unparseable_are_text the same way")
+    flag_l = [i_ for i_, l_ in enumerate(b.locals) if l_.get("name") == "unparseable_are_text" and i_ <= b.argc]
+    if len(flag_l) != 1:
+        raise CheckerError("pathbuf_to_filetype_impl: parameter unparseable_are_text not found")
+    fl = flag_l[0]
+
+    def _ret_sig(bb):
+        seen = set()
+        while bb is not None and bb not in seen:
+            seen.add(bb)
+            for s_ in b.stmts(bb):
+                if s_[0] == "=" and s_[1] == [0]:
+                    rv = s_[2]
+                    if rv[0] == "agg" and isinstance(rv[1], dict):
+                        inner = []
+                        for o_ in rv[2]:
+                            if o_[0] == "k" and isinstance(o_[2], dict):
+                                inner.append(o_[2].get("variant"))
+                            elif o_[0] != "k":
+                                for x in b.origins(o_):
+                                    if x[0] == "agg":
+                                        k_ = b.stmts(x[1])[x[2]][2][1]
+                                        inner.append(k_.get("variant") if isinstance(k_, dict) else "agg")
+                                    elif x[0] == "const":
+                                        inner.append(str(x[1])[:40])
+                        return ("build", rv[1].get("variant"), tuple(sorted(map(str, inner))))
+                    if rv[0] == "use" and rv[1][0] != "k":
+                        l_ = rv[1][1][0]
+                        return ("copy", b.local_name(l_) or l_)
+                    return ("other", str(rv)[:40])
+            su = b.succ[bb]
+            bb = su[0] if len(su) == 1 else None
+        return None
+    sites_ = []
+    for bb in sorted(b.live):
+        t = b.term(bb)
+        if t[0] != "switch" or t[1][0] not in ("cp", "mv"):
+            continue
+        neg = False
+        dl = t[1][1][0] if len(t[1][1]) == 1 else None
+        # follow temporaries: plain copies keep the polarity, Not(..) flips it
+        hops = 0
+        while dl is not None and dl != fl and hops < 8:
+            hops += 1
+            ds_ = b.defs.get(dl, [])
+            if len(ds_) != 1 or ds_[0][1] == "call":
+                break
+            rv_ = ds_[0][2]
+            if rv_[0] == "use" and rv_[1][0] != "k" and len(rv_[1][1]) == 1:
+                dl = rv_[1][1][0]
+            elif rv_[0] == "un" and rv_[1] == "Not" and op_local(rv_[2]) is not None:
+                dl = op_local(rv_[2])
+                neg = not neg
+            else:
+                break
+        if dl == fl:
+            arms_ = {int(v): tb for v, tb in t[2]}
+            f_sig, t_sig = _ret_sig(arms_.get(0)), _ret_sig(t[3])
+            if neg:
+                f_sig, t_sig = t_sig, f_sig
+            sites_.append((b.blocks[bb].get("l"), f_sig, t_sig))
+    sigs = {}
+    for ln, f_, t_ in sites_:
+        sigs.setdefault((f_, t_), []).append(ln)
+    rep.examined(R168, FN + "|fallbacks", sample={"sites": len(sites_), "distinct_mappings": [(str(k_), v_) for k_, v_ in sigs.items()]})
+    if len(sites_) < 4:
+        raise CheckerError("pathbuf_to_filetype_impl: only %d direct tests of unparseable_are_text (6 on the pinned tree)" % len(sites_))
+    if len(sigs) > 1:
+        major = max(sigs.items(), key=lambda kv: len(kv[1]))
+        odd = [(k_, v_) for k_, v_ in sigs.items() if k_ != major[0]]
+        rep.violation(R168, FN + "|fallbacks", "pathbuf_to_filetype_impl: the fallback at line %s maps unparseable_are_text to (false: %s, true: %s) while the %d other sites map it to (false: %s, true: %s); "
+                      "names that end up there are unparsable when passed explicitly and text in a directory walk" % (odd[0][1], odd[0][0][0], odd[0][0][1], len(major[1]), major[0][0], major[0][1]))
+
     return rep.finish(
         "Static necessary-condition check of the name classifier: the suffix table and the bare-name table agree on every shared type word, every "
         "constructed FileType carries the container variable, every self-call passes the unparseable flag unchanged and Some(container) (the "
